@@ -96,8 +96,9 @@ CLAIMED = {
              "if/else and the R*S*M plumbing, the two sum-axes helpers, Conj/Add/Compose/Hstack/Vstack/Diag, the opaque pairs "
              "FFT<->IFFT, Wavelet<->InverseWavelet, Convolve*<->*Adjoint, NUFFT<->NUFFTAdjoint) and proved equal to the model's adj "
              "(adjLeaf_eq_gen, adj_eq_gen, multiplySumAxes_gen, matmulSumAxes_gen, adjOpaque_table), so adj_denote_gen states the "
-             "tree theorem about the generated definitions; the `_apply` side of fifteen classes (Identity, Reshape, Transpose, "
-             "Resize, Flip, Circshift, Downsample, Upsample, Sum, Slice, Embed, ArrayToBlocks, BlocksToArray, Interpolate, Gridding) is translated too (applyGen: "
+             "tree theorem about the generated definitions; the `_apply` side of seventeen classes (Identity, Reshape, Transpose, "
+             "Resize, Flip, Circshift, Downsample, Upsample, Sum, Slice, Embed, ArrayToBlocks, BlocksToArray, Interpolate, Gridding, "
+             "MatMul, RightMatMul incl. operand order and conj().swapaxes under `adjoint`) is translated too (applyGen: "
              "which numpy / util / block / interp primitive with which attributes in which argument positions, bound through the "
              "callee's signature read from util.py) and proved to be what the model's leafSem0 denotes (leafSem0_eq_prim). Tie: translator (Gen.Block, Gen.Interp, formulas, Gen.LinopAdjoint) + "
              "exact comparison of the implementation's matrices of A and A.H (basis vectors + Gaussian-integer vector) with the "
@@ -106,8 +107,8 @@ CLAIMED = {
         note="Trusted: Lean kernel; translator (gen_c01: per-class map attribute -> constructor parameter read from __init__; the "
              "normalised attributes Sum.axes / Tile.axes / Transpose.axes are pinned by source text); the semantics of the "
              "numpy / util primitives (transpose, sum, slicing, flip, roll, resize, ...) are the model's hand-written contracts "
-             "tied by the exact correspondence; the `_apply` bodies of Tile, Multiply, MatMul, "
-             "RightMatMul (not a single call on `input`) are hand transcriptions tied by the exact "
+             "tied by the exact correspondence; the `_apply` bodies of Tile and Multiply "
+             "(derived attributes / scalar-array branches) are hand transcriptions tied by the exact "
              "correspondence, not regenerated; FFT leaves rest on C05's "
              "table (tied to fourier.py by C05's check, irrational entries are not run through the C01 driver); oracle-only "
              "(dot test, pairing pinned by adjOpaque_table): Wavelet/InverseWavelet in N-d / several axes or over complex scalars (only the 1-D "
